@@ -10,6 +10,7 @@ C18 line-protocol driver.
   httprw <uriTmpl> <path> <rawQuery> <secret>   the URI part of the rewrite handler: Path, RawQuery, Fragment afterwards
   cost  <mode> <n> <mult>          timing case '{'^n+'}' at n and mult·n (answer is the constant `cost`); mode ∈ all|known|orerr|orkeep
   costf <mode> <n> <mult> <unit> <tail>   the same for unit^n+tail
+  fcgi <envKey> <envTmpl> <rootTmpl> <split> <path> <rawQuery> <X-In> <user> <secret>   CGI variables the real FastCGI transport sends (Fcgi.lean)
 env = `.` or `k:v;k:v;…` (hex fields).  Answers: `ok <hex>` | `err:<class>` | `panic`.
 -/
 import CaddyModel.C18.Model
@@ -111,6 +112,7 @@ def handle : List String → String
   | "httptpl" :: rest => handleTpl rest
   | "cfenv" :: rest => handleCfEnv rest
   | "httpdial" :: rest => handleDial rest
+  | "fcgi" :: rest => handleFcgi rest
   | ["zoo", _, _, _] => "zoo"      -- oracle-only stream (real provisioned server); nothing to model
   | _ => "bad-op"
 
